@@ -309,8 +309,15 @@ func (s *server) processChunkWithReordering(stream clusterv1.ChunkedSyncService_
 	buffer.lastActivity = time.Now()
 
 	if req.ChunkIndex == buffer.expectedIndex {
+		acceptedBefore := session.chunksReceived
 		if processErr := s.processExpectedChunk(stream, session, req); processErr != nil {
 			return processErr
+		}
+		if session.chunksReceived == acceptedBefore {
+			// The chunk was rejected (checksum mismatch, already reported to the
+			// sender): keep expecting this index so that the retransmission is
+			// applied instead of being dropped as a duplicate.
+			return nil
 		}
 		buffer.expectedIndex++
 
@@ -488,8 +495,13 @@ func (s *server) processBufferedChunks(stream clusterv1.ChunkedSyncService_SyncP
 					Msg("processing buffered chunk")
 			}
 
+			acceptedBefore := session.chunksReceived
 			if processErr := s.processExpectedChunk(stream, session, chunk); processErr != nil {
 				return processErr
+			}
+			if session.chunksReceived == acceptedBefore {
+				// Rejected buffered chunk: wait for its retransmission.
+				break
 			}
 			buffer.expectedIndex++
 		} else {
